@@ -9,8 +9,11 @@ COMMON_TRUSTED = [
     "Coq by the model and by the executable spec (coq/Check)",
     "coq/Gen/Consts.v regenerated from the compiled crate on every run",
     "coq/Gen/Src*.v translated from the source text on every run by tools/rs2v.py (make_tune_ok, Heartbeat::fire, "
-    "Channel0Handle::new, SealableOutputBuffer::{append, push_method, push_heartbeat, seal}; the meaning given to the Rust subset is stated in that file and trusted) and proved equal "
-    "to the hand-written models (C15_source_is_model, C17_fire_source_is_model, C02_limit_source_is_model, C08_seal_source_is_model)",
+    "Channel0Handle::new, SealableOutputBuffer::{append, push_method, push_heartbeat, seal}) and tools/rs2sm.py (the content "
+    "collector: ContentCollector::{collect_deliver, collect_return, collect_get, collect_header, collect_body} and "
+    "State<T>::{collect_header, collect_body}); the meaning given to the Rust subsets is stated in those files and trusted; "
+    "the translations are proved equal to the hand-written models (C15_source_is_model, C17_fire_source_is_model, "
+    "C02_limit_source_is_model, C08_seal_source_is_model, C03_source_is_model)",
     "no extraction is used: the model is evaluated by the kernel's VM",
 ]
 
@@ -551,6 +554,9 @@ PROPS["C03"]["rule"] += (" End to end (c03l2): a real connection, 1-2 channels w
     "public API; the broker pushes 1 / 6 / 25 / 60 deliveries with bodies of 0 / 1 / 10 / 300 / 4088 / 5000 / 20000 "
     "bytes in any partition (empty body frames included), four property sets, the channels' frames interleaved, the "
     "byte stream pushed in pieces of 1-9 / 1-200 / up to 70000 bytes; every consumer's receiver is read out.")
+PROPS["C03"]["explanation"] += (" C03_source_is_model / C03_source_sequence: src/io_loop/content_collector.rs as "
+    "translated from the source text on every run (Gen/SrcCollect.v, tools/rs2sm.py) is Model/Collector.v over every "
+    "sequence of frames from every state, so the round-trip theorems hold of the translated code itself.")
 PROPS["C03"]["explanation"] += (" c03l2: what every public receiver yielded must equal what the Core model's consumer "
     "queue accepted for the same frames (model) and what a plain reader of the frame stream assigns to that consumer, "
     "field by field, in order, nothing missing and nothing extra (oracle).")
